@@ -7,7 +7,8 @@
 From Coq Require Import List Arith NArith Bool.
 From V.gen Require ConnExits.
 From V.Mgr Require Import Model Caps.
-From V.C07 Require Import Model Proofs Compose.
+From V.Ts Require Import Report ReportProofs.
+From V.C07 Require Import Model Proofs Compose Block BlockProofs.
 Import ListNotations.
 Open Scope N_scope.
 
@@ -314,6 +315,94 @@ Print Assumptions C07_node_no_rollback.
 Theorem C07_node_init : forall L n, NodeInv L (node_init n) [] [].
 Proof. exact node_inv_init. Qed.
 Print Assumptions C07_node_init.
+
+(* ---------------------------------------------------------------------------------------- *)
+(* part 3: back-pressure — the reports are `send(..).await` on bounded channels shared by all   *)
+(* connections (coq/C07/Block.v over coq/Ts/Report.v); every schedule of loop events, protocol   *)
+(* receives, protocol exits and scheduler polls                                                  *)
+
+(* The invariant of the composed system holds initially and along every schedule. *)
+Theorem C07_block_invariant :
+  forall me n cap es, Binv me (fst (brun (binit n cap) es)).
+Proof. intros me n cap es. apply binv_run, binv_init. Qed.
+Print Assumptions C07_block_invariant.
+
+(* Exactly-once survives blocking: whatever the schedule, from whatever state, the manager is told
+   at most once that a connection is closed. *)
+Theorem C07_block_manager_told_once :
+  forall me es s, (cnt_out (is_mgr me) (snd (brun s es)) <= 1)%nat.
+Proof. intros me es s. apply mgr_once_from. Qed.
+Print Assumptions C07_block_manager_told_once.
+
+(* Protocols before the manager, also when sends have to wait: when the manager is told, no send of the
+   connection is waiting any more and every protocol still running has the closed notice in its channel. *)
+Theorem C07_block_told_after_protocols :
+  forall me s e, Binv me s -> In (OMgrClosed me) (snd (bstep s e)) ->
+  let s' := fst (bstep s e) in
+  busy_in me (s_ch s') = false /\
+  exists bc, find_c me (s_conns s') = Some bc /\ b_ph bc = PDone /\
+    forall p, nth p (alive (b_task bc)) false = true -> In (IClosed me) (racc_at (s_ch s') p).
+Proof. exact told_after_protocols. Qed.
+Print Assumptions C07_block_told_after_protocols.
+
+(* Every protocol channel carries the closed notice of a connection at most once, and not at all while
+   the connection runs. *)
+Theorem C07_block_closed_once_per_channel :
+  forall me s p, Binv me s ->
+  (cntc me (racc_at (s_ch s) p) <= 1)%nat /\
+  ((forall bc, find_c me (s_conns s) = Some bc -> is_gone (b_task bc) = false) -> cntc me (racc_at (s_ch s) p) = 0%nat).
+Proof. intros me s p I. split; [apply (bi_c1 _ _ I)|intro H; now apply (bi_c0 _ _ I)]. Qed.
+Print Assumptions C07_block_closed_once_per_channel.
+
+(* Liveness under draining: from any reachable state, once every protocol has received what is queued
+   for it or waiting (the schedule `flush`), a parked report completes at the next poll: a parked closed
+   report tells the manager, a parked accept resolves, a parked substream report lets the loop go on. *)
+Theorem C07_block_parked_report_completes :
+  forall me s bc, Binv me s -> (1 <= s_cap s)%nat -> find_c me (s_conns s) = Some bc ->
+  let s1 := fst (brun s (flush s)) in
+  snd (brun s (flush s)) = [] /\
+  match b_ph bc with
+  | PWaitClosed => snd (bstep s1 (BResume me)) = [OMgrClosed me] /\
+                   ph_of me (fst (bstep s1 (BResume me))) = Some PDone
+  | PWaitEst => snd (bstep s1 (BResume me)) = [OAccepted me] /\
+                ph_of me (fst (bstep s1 (BResume me))) = Some PRun
+  | PWaitSub => ph_of me (fst (bstep s1 (BResume me))) = Some PRun
+  | _ => True
+  end.
+Proof. exact parked_report_completes. Qed.
+Print Assumptions C07_block_parked_report_completes.
+
+(* ... and every protocol that still runs has then received the closed notice exactly once. *)
+Theorem C07_block_delivered_exactly_once :
+  forall me s bc p ch, Binv me s -> (1 <= s_cap s)%nat ->
+  find_c me (s_conns s) = Some bc -> is_gone (b_task bc) = true ->
+  nth p (alive (b_task bc)) false = true -> nth p (s_alive s) false = true ->
+  nth_error (s_ch (fst (brun s (flush s)))) p = Some ch ->
+  cntc me (rdel ch) = 1%nat.
+Proof. exact delivered_exactly_once. Qed.
+Print Assumptions C07_block_delivered_exactly_once.
+
+(* Back-pressure is real, and it is all there is: while the protocol on whose channel a connection waits
+   neither receives nor exits, the connection keeps waiting and the manager is not told — under every
+   schedule of everything else (other connections, other protocols). A protocol that never drains its
+   channel therefore holds back the reports of every connection that has to tell it something; it does not
+   stop the manager loop, which never waits on a protocol channel. *)
+Theorem C07_block_waits_until_drained :
+  forall me p es s, forallb (leaves_alone p) es = true -> busy_at me (s_ch s) p = true ->
+  busy_at me (s_ch (fst (brun s es))) p = true /\ cnt_out (is_mgr me) (snd (brun s es)) = 0%nat.
+Proof. exact waits_until_drained. Qed.
+Print Assumptions C07_block_waits_until_drained.
+
+(* non-vacuity: two protocols with channels of capacity 1. Connection 0 is accepted; the accept of
+   connection 1 has to wait; connection 0 ends and its closed report has to wait too (the manager is not
+   told); once the protocols have received everything, both parked reports complete. *)
+Example C07_block_nonvacuous :
+  let s0 := binit 2 1 in
+  let r1 := brun s0 [BAccept 0; BAccept 1; BLoop 0 (EYamux YEof)] in
+  snd r1 = [OAccepted 0] /\
+  ph_of 1 (fst r1) = Some PWaitEst /\ ph_of 0 (fst r1) = Some PWaitClosed /\
+  snd (brun (fst r1) (flush (fst r1) ++ [BResume 0; BResume 1])) = [OMgrClosed 0; OAccepted 1].
+Proof. vm_compute. repeat split. Qed.
 
 (* non-vacuity: a node with three protocols; a connection is accepted, one protocol exits, a
    substream for it is dropped, the remote closes: the application sees established then closed *)
